@@ -777,8 +777,10 @@ def _latent_dag(
     rv.add_nodes_from(itt.chain.from_iterable(bi_edges_list))
     rv.add_edges_from(di_edges)
     nx.set_node_attributes(rv, False, tag)
-    for i, (u, v) in enumerate(sorted(bi_edges_list), start=start):
-        latent_node = Variable(f"{prefix}{i}")
+    latent_names = (Variable(f"{prefix}{i}") for i in itt.count(start))
+    for u, v in sorted(bi_edges_list):
+        # skip names that already belong to a node of the graph
+        latent_node = next(name for name in latent_names if name not in rv)
         rv.add_node(latent_node, **{tag: True})
         rv.add_edge(latent_node, u)
         rv.add_edge(latent_node, v)
